@@ -235,18 +235,18 @@ static void run_cfg(const cfg_t *c)
 static const cfg_t cfgs[] = {
     /* name                 mode     backend k m ctl g  nt ni qb tb  releases per thread {inst,flow} */
     { "mask_array_g2",       MASK,    ARRAY, 2,0,0,0,  2,2, 3,4, { { {0,0},{1,1},X }, { {1,0},{0,1},X }, { X } } },
-    { "mask_array_g3",       MASK,    ARRAY, 3,0,0,0,  3,2, 2,4, { { {0,0},{1,0},X }, { {0,1},{1,1},X }, { {1,2},{0,2},X } } },
-    { "mask_array_g4",       MASK,    ARRAY, 4,0,0,0,  3,1, 2,4, { { {0,0},{0,3},X }, { {0,1},X }, { {0,2},X } } },
+    { "mask_array_g3",       MASK,    ARRAY, 3,0,0,0,  3,2, 1,4, { { {0,0},{1,0},X }, { {0,1},{1,1},X }, { {1,2},{0,2},X } } },
+    { "mask_array_g4",       MASK,    ARRAY, 4,0,0,0,  3,1, 1,4, { { {0,0},{0,3},X }, { {0,1},X }, { {0,2},X } } },
     { "mask_array_g1_in2",   MASK,    ARRAY, 1,2,0,0,  2,2, 3,4, { { {0,0},X }, { {1,0},X }, { X } } },
-    { "mask_array_g2_in1_ctl", MASK,  ARRAY, 2,1,1,0,  3,2, 2,4, { { {0,0},{1,1},X }, { {1,0},{0,1},X }, { {1,3},X } } },
+    { "mask_array_g2_in1_ctl", MASK,  ARRAY, 2,1,1,0,  3,2, 1,4, { { {0,0},{1,1},X }, { {1,0},{0,1},X }, { {1,3},X } } },
     { "mask_hash_g2",        MASK,    HASH,  2,0,0,0,  2,2, 2,3, { { {0,0},{1,1},X }, { {1,0},{0,1},X }, { X } } },
     { "mask_hash_g3",        MASK,    HASH,  3,0,0,0,  3,1, 1,3, { { {0,0},X }, { {0,1},X }, { {0,2},X } } },
     { "mask_hash_g2_in1_ctl", MASK,   HASH,  2,1,1,0,  3,2, 1,2, { { {0,0},{1,1},X }, { {1,0},{0,1},X }, { {1,3},X } } },
     { "counter_array_g2",    COUNTER, ARRAY, 2,0,0,0,  2,2, 3,4, { { {0,0},{1,1},X }, { {1,0},{0,1},X }, { X } } },
-    { "counter_array_g3",    COUNTER, ARRAY, 3,0,0,0,  3,2, 2,4, { { {0,0},{1,0},X }, { {0,1},{1,1},X }, { {1,2},{0,2},X } } },
-    { "counter_array_g4",    COUNTER, ARRAY, 4,0,0,0,  3,1, 2,4, { { {0,0},{0,3},X }, { {0,1},X }, { {0,2},X } } },
+    { "counter_array_g3",    COUNTER, ARRAY, 3,0,0,0,  3,2, 1,4, { { {0,0},{1,0},X }, { {0,1},{1,1},X }, { {1,2},{0,2},X } } },
+    { "counter_array_g4",    COUNTER, ARRAY, 4,0,0,0,  3,1, 1,4, { { {0,0},{0,3},X }, { {0,1},X }, { {0,2},X } } },
     { "counter_array_g1_in2", COUNTER, ARRAY, 1,2,0,0, 2,2, 3,4, { { {0,0},X }, { {1,0},X }, { X } } },
-    { "counter_array_g1_ctl_gather2", COUNTER, ARRAY, 1,0,1,2, 3,2, 2,4, { { {0,0},{1,2},{1,1},X }, { {0,2},{1,0},X }, { {0,2},{1,2},X } } },
+    { "counter_array_g1_ctl_gather2", COUNTER, ARRAY, 1,0,1,2, 3,2, 1,4, { { {0,0},{1,2},{1,1},X }, { {0,2},{1,0},X }, { {0,2},{1,2},X } } },
     { "counter_hash_g2",     COUNTER, HASH,  2,0,0,0,  2,2, 2,3, { { {0,0},{1,1},X }, { {1,0},{0,1},X }, { X } } },
     { "counter_hash_g3",     COUNTER, HASH,  3,0,0,0,  3,1, 1,3, { { {0,0},X }, { {0,1},X }, { {0,2},X } } },
     { "counter_hash_g2_gather2", COUNTER, HASH, 2,0,0,2, 3,1, 1,2, { { {0,0},{0,2},X }, { {0,1},X }, { {0,2},X } } },
